@@ -13,9 +13,11 @@ pub mod c09;
 pub mod c12;
 pub mod c13;
 pub mod c14;
+pub mod c15;
 pub mod c16;
 pub mod c17;
 pub mod c19;
+pub mod c20;
 
 pub fn run(id: &str, thorough: bool) -> Option<Outcome> {
     match id {
@@ -30,9 +32,11 @@ pub fn run(id: &str, thorough: bool) -> Option<Outcome> {
         "C12" => Some(c12::run(thorough)),
         "C13" => Some(c13::run(thorough)),
         "C14" => Some(c14::run(thorough)),
+        "C15" => Some(c15::run(thorough)),
         "C16" => Some(c16::run(thorough)),
         "C17" => Some(c17::run(thorough)),
         "C19" => Some(c19::run(thorough)),
+        "C20" => Some(c20::run(thorough)),
         _ => None,
     }
 }
@@ -50,9 +54,11 @@ pub fn replay(id: &str, ex: &Value) -> Option<Report> {
         "C12" => Some(c12::replay(ex)),
         "C13" => Some(c13::replay(ex)),
         "C14" => Some(c14::replay(ex)),
+        "C15" => Some(c15::replay(ex)),
         "C16" => Some(c16::replay(ex)),
         "C17" => Some(c17::replay(ex)),
         "C19" => Some(c19::replay(ex)),
+        "C20" => Some(c20::replay(ex)),
         _ => None,
     }
 }
